@@ -50,6 +50,15 @@ def shards(tier, seed):
 
 def norm_host(h):
     """strip port, IDNA-normalise (UTS-46 dots are separators); None if the name cannot be a host name"""
+    if h.startswith("["):
+        # an IPv6 literal: the name is everything up to the closing bracket, an optional port follows it
+        end = h.find("]")
+        if end < 0:
+            return None
+        lit, rest = h[: end + 1], h[end + 1:]
+        if rest and not rest.startswith(":"):
+            return None
+        return lit.lower()
     h = h.partition(":")[0]
     try:
         return h.encode("idna").decode("ascii")
@@ -82,7 +91,7 @@ def ref_trusted(host, trusted):
 
 
 LABELS = ["localhost", "a", "evil", "com", "evillocalhost", "localhostevil", "xn--nxasmq6b", "ü", "LOCALHOST", "A" * 64, "", "127", "0", "1", "b-c", "a。b"]
-ENTRIES = ["localhost", ".localhost", "127.0.0.1", "a.com", ".a.com", "ü.com", ".xn--nxasmq6b", "LOCALHOST", "." + "A" * 64 + ".com", "evil.com:8080", ".com"]
+ENTRIES = ["[::1]", "[::1]:8080", "localhost", ".localhost", "127.0.0.1", "a.com", ".a.com", "ü.com", ".xn--nxasmq6b", "LOCALHOST", "." + "A" * 64 + ".com", "evil.com:8080", ".com"]
 PORTS = ["", ":80", ":abc", ":", ":99999"]
 
 
@@ -92,13 +101,13 @@ def host_pairs(rng, idx, of):
     for k in (1, 2, 3):
         for labs in itertools.product(LABELS, repeat=k) if k < 3 else (tuple(rng.choice(LABELS) for _ in range(3)) for _ in range(1500)):
             hosts.add(".".join(labs))
-    hosts |= {"127.0.0.1", "127.0.0.1.evil.com", "[::1]", "[::1]:80", "localhost.", ".localhost", "a..localhost", "1.127.0.0.1", "127.0.0.10"}
+    hosts |= {"127.0.0.1", "127.0.0.1.evil.com", "[::1]", "[::1]:80", "[::2]", "[2001:db8::1]", "[::1", "[::ffff:127.0.0.1]", "localhost.", ".localhost", "a..localhost", "1.127.0.0.1", "127.0.0.10"}
     for h in sorted(hosts):
         for port in PORTS:
             n += 1
             if n % of != idx:
                 continue
-            for tl in (["localhost"], [".localhost", "127.0.0.1"], ["a.com", ".a.com"], [rng.choice(ENTRIES), rng.choice(ENTRIES)], [rng.choice(ENTRIES)]):
+            for tl in (["localhost"], [".localhost", "127.0.0.1"], ["a.com", ".a.com"], ["[::1]", "localhost"], [rng.choice(ENTRIES), rng.choice(ENTRIES)], [rng.choice(ENTRIES)]):
                 yield h + port, tl
             # the host itself listed with a port, and its parent listed with a leading dot and a port
             if h and ":" not in h:
